@@ -192,8 +192,8 @@ def expr(c: Ctx, kind: str, d: int) -> str:
             (1, lambda: f"lib_pair({E('int')}, {E('u')})[0]"),
             (1, lambda: f"lib_dflt({E('int')})[0]"),
             (1, lambda: f"({E('int')}, {E('u')})[0]"),
-            (1, lambda: f"int({E('bool')})"),
-            (1, lambda: f"({E('bool')} + {E('bool')})"),
+            (1, lambda: f"int(({E('bool')}))"),
+            (1, lambda: f"(({E('bool')}) + ({E('bool')}))"),
             (1, lambda: f"sum({E('tupn')})"),
             (1, lambda: f"({E('int')} ** 2)"),
             (2, lambda: narrow_idiom(c, "int", d)),
@@ -402,6 +402,8 @@ def atom_cond(c: Ctx) -> Cond:
     if tmpl is None:
         tmpl = fallback or "{X} is None"
     src = tmpl.replace("{X}", x)
+    if src.startswith("not "):
+        src = "(" + src + ")"
     c.hit("cond:" + tmpl.split("(")[0].replace("{X}", "X")[:14])
     if x in c.samples:
         try:
@@ -846,6 +848,18 @@ def stmt_match(c, depth, ind, b):
 
 
 def gen_function(rng, name, hist=None, size=None):
+    for _ in range(20):
+        src, tuples, pts = _gen_function(rng, name, hist, size)
+        try:
+            compile(src, "<gen>", "exec")
+            return src, tuples, pts
+        except SyntaxError:
+            if hist is not None:
+                hist["regenerated_after_syntax_error"] = hist.get("regenerated_after_syntax_error", 0) + 1
+    raise RuntimeError("generator produced 20 syntactically invalid functions in a row")
+
+
+def _gen_function(rng, name, hist=None, size=None):
     nparams = rng.choice([1, 2, 2, 3, 3, 4])
     keys = sorted(PARAM_TYPES)
     params = {}
